@@ -7,7 +7,7 @@ Line protocol of C04 (one history per line):
 
     hist <np24|np21|np1> <n> <ns> <w> <ov> <bin|cbin>[@<k>] <call> <call> …      (@k: the first k shank folders pre-exist, empty)
     call = <postCheck><compress><deleteOriginal><overwrite><onShank>:<interrupt>:<corrupt>     five 0/1 digits
-    interrupt = - | s<j> | m<j> | v<k> | c<j> | d            corrupt = - | <shank index>
+    interrupt = - | s<j> | m<j> | v<k> | c<j> | d            corrupt = - | <shank>.<kp>.<kv>  (altered sample: shank, processing window, verification window)
 
 Answer: one `<result>@<disk>` token per call, the disk after that call.  Parsing and printing only; the
 transition function is `Converter.run`, the one the theorems are about.
@@ -26,10 +26,16 @@ def point? (s : String) : Option (Option Point) :=
     | 'c' :: r => (String.ofList r).toNat?.map fun j => some (.compress j)
     | _ => none
 
+def alter? (c : String) : Option (Option Alter) :=
+  if c = "-" then some none else
+  match (c.splitOn ".").mapM (·.toNat?) with
+  | some [sh, kp, kv] => some (some ⟨sh, kp, kv⟩)
+  | _ => none
+
 def call? (s : String) : Option Call :=
   match s.splitOn ":" with
   | [b, i, c] =>
-    match b.toList.mapM bit?, point? i, (if c = "-" then some none else c.toNat?.map some) with
+    match b.toList.mapM bit?, point? i, alter? c with
     | some [pc, cp, dl, ow, sh], some ip, some cor =>
       some { opts := ⟨pc, cp, dl⟩, overwrite := ow, interrupt := ip, corrupt := cor, onShank := sh }
     | _, _, _ => none
@@ -44,7 +50,7 @@ def showBit (b : Bool) : String := if b then "1" else "0"
 def showFiles (c : Nat) (f : FileSet) : String :=
   (match f.bin with
    | .absent => "a"
-   | .part k => s!"p{k}"
+   | .part k ok => s!"p{k}" ++ (if ok then "" else "b")
    | .whole d => "w" ++ showData c d) ++ "," ++
   (match f.cbin with
    | none => "n"
